@@ -1,34 +1,11 @@
 import Driver.Common
 import AslModel.Xdl
 import AslModel.Strtod
+import AslModel.XdlDump
 /-! Model driver for C06 (JSON/XDL decoder). -/
-open Driver AslModel AslModel.Xdl
+open Driver AslModel AslModel.Xdl AslModel.XdlDump
 
 namespace Driver.C06
-
-def hex16 (v : UInt64) : String :=
-  String.ofList ((List.range 16).map fun i => hexDigit ((v.toNat >>> (4 * (15 - i))) % 16))
-
-def sortStr (l : List (String × String)) : List (String × String) :=
-  (l.toArray.qsort (fun a b => a.1 < b.1)).toList
-
-mutual
-/-- canonical text of a decoded value: object members sorted by key, doubles by bit pattern -/
-def dump : JV → String
-  | .null => "n"
-  | .bool b => if b then "t" else "f"
-  | .int i => s!"i{i}"
-  | .num l => "d" ++ hex16 (Strtod.atofBits l)
-  | .str s => "s" ++ hex s
-  | .arr l => "[" ++ ",".intercalate (dumpL l) ++ "]"
-  | .obj l => "{" ++ ",".intercalate ((sortStr (dumpO l)).map fun kv => kv.1 ++ ":" ++ kv.2) ++ "}"
-def dumpL : List JV → List String
-  | [] => []
-  | x :: t => dump x :: dumpL t
-def dumpO : List (Bytes × JV) → List (String × String)
-  | [] => []
-  | (k, x) :: t => (hex k, dump x) :: dumpO t
-end
 
 def showVal : Option (Option JV) → String
   | none => "fault"
